@@ -5,8 +5,10 @@ package packet
 // replayed natively (values come from a tape written by the replay generator).
 
 import (
+	"reflect"
 	"runtime"
 	"time"
+	"unsafe"
 )
 
 var verifTapeInts []uint64
@@ -59,7 +61,16 @@ func verifAssertHard(b bool, id string) { verifAssert(b, id) }
 func verifReach(id string)              {}
 func verifChoose(n int) int             { return int(verifNext()) % n }
 func verifSplit(n int) int              { return int(verifNext()) % n }
-func verifTagInput(b []byte)            {}
+// native provenance monitor (replay only): address range of the tagged packet buffer
+var verifTagLo, verifTagHi uintptr
+
+func verifTagInput(b []byte) {
+	if cap(b) == 0 {
+		return
+	}
+	verifTagLo = uintptr(unsafe.Pointer(&b[:1][0]))
+	verifTagHi = verifTagLo + uintptr(cap(b))
+}
 func verifConcretize(x int) int         { return x }
 
 // verifCapFor(n, c): the capacity to use for a slice of length n. Natively, when a
@@ -73,7 +84,78 @@ func verifCapFor(n, c int) int {
 	}
 	return c
 }
-func verifNoInputAlias(root interface{}, id string) {}
+func verifNoInputAlias(root interface{}, id string) {
+	if verifTagHi == 0 {
+		return
+	}
+	seen := map[uintptr]bool{}
+	hit := false
+	in := func(p uintptr) bool { return p >= verifTagLo && p < verifTagHi }
+	var walk func(v reflect.Value, depth int)
+	walk = func(v reflect.Value, depth int) {
+		if hit || depth > 40 || !v.IsValid() {
+			return
+		}
+		switch v.Kind() {
+		case reflect.Ptr:
+			if v.IsNil() || seen[v.Pointer()] {
+				return
+			}
+			seen[v.Pointer()] = true
+			if in(v.Pointer()) {
+				hit = true
+				return
+			}
+			walk(v.Elem(), depth+1)
+		case reflect.Interface:
+			if !v.IsNil() {
+				walk(v.Elem(), depth+1)
+			}
+		case reflect.Slice:
+			if v.IsNil() {
+				return
+			}
+			if v.Cap() > 0 && in(v.Pointer()) {
+				hit = true
+				return
+			}
+			if k := v.Type().Elem().Kind(); k == reflect.Uint8 || k == reflect.Int || k == reflect.Uint16 || k == reflect.Bool {
+				return
+			}
+			for i := 0; i < v.Len(); i++ {
+				walk(v.Index(i), depth+1)
+			}
+		case reflect.String:
+			if str := v.String(); len(str) > 0 && in(*(*uintptr)(unsafe.Pointer(&str))) {
+				hit = true
+			}
+		case reflect.Struct:
+			for i := 0; i < v.NumField(); i++ {
+				walk(v.Field(i), depth+1)
+			}
+		case reflect.Array:
+			if k := v.Type().Elem().Kind(); k == reflect.Uint8 {
+				return
+			}
+			for i := 0; i < v.Len(); i++ {
+				walk(v.Index(i), depth+1)
+			}
+		case reflect.Map:
+			if v.IsNil() {
+				return
+			}
+			it := v.MapRange()
+			for it.Next() {
+				walk(it.Key(), depth+1)
+				walk(it.Value(), depth+1)
+			}
+		}
+	}
+	walk(reflect.ValueOf(root), 0)
+	if hit {
+		verifFailures = append(verifFailures, id)
+	}
+}
 func verifInside(outer, inner []byte, id string) {
 	if len(inner) == 0 {
 		return
